@@ -414,6 +414,8 @@ class StmtMixin:
                     return IterSpec(length=n, elem=lambda k: tuple(i.elem(k) for i in inners), facts=[f for i in inners for f in i.facts])
                 if tag == "#product":
                     return self.product_iter(itv[1:], st, spec)
+                if tag == "#traverse":
+                    return self.traverse_iter(itv[1], itv[2], st)
                 if tag == "#mapkeys":
                     return self.set_iter(SV(ops.map_dom(itv[1]), Set(itv[1].pt.args[0])), st, spec)
                 if tag == "#mapitems":
@@ -476,6 +478,16 @@ class StmtMixin:
         ]
         it = IterSpec(length=n, elem=lambda k: SV(self.ctx.app(en, k), ept), facts=facts)
         it.enum_name, it.idx_name, it.elem_pt = en, ix, ept
+        return it
+
+    def traverse_iter(self, root, strategy, st) -> IterSpec:
+        """ete3 TreeNode.traverse(strategy): assumed contract = an enumeration of the subtree (see contracts/trees.py)."""
+        pref = {"preorder": "pre", "postorder": "post", "levelorder": "lvl"}[strategy]
+        nth, idx = f"{pref}_nth", f"{pref}_idx"
+        rt = self.ops.term(root)
+        it = IterSpec(length=self.ctx.app("size", rt), elem=lambda k: SV(self.ctx.app(nth, rt, k), root.pt))
+        it.enum_name, it.idx_name, it.elem_pt = nth, idx, root.pt
+        it.trav_root = rt
         return it
 
     def product_iter(self, parts, st, spec) -> IterSpec:
